@@ -160,7 +160,9 @@ def pairwise_mahalanobis_distances(
         )
 
     _check_dimension(X, cell_length)
-    X, Y = check_pairwise_arrays(X, Y)
+    # like the periodic Euclidean distance: compute in double precision also for float32 input
+    # (check_pairwise_arrays would otherwise keep float32 when both arrays are float32)
+    X, Y = check_pairwise_arrays(X, Y, dtype=np.float64)
     if len(cov_inv.shape) == 2:
         cov_inv = cov_inv[np.newaxis, :, :]
     dists = _mahalanobis(cell_length, X, Y, cov_inv)
